@@ -861,6 +861,15 @@ class Schema:
             new = SV("list", obj.t, x=z3.IntVal(0), cls=obj.cls)
             self._wb(obj, new, st)
             return sv_none()
+        if name == "pop" and not args:
+            # list.pop(): IndexError on an empty list, else removes and returns the last element
+            s2 = st.fork()
+            s2.assume(obj.x <= 0)
+            eng.exc_paths.append((s2, Exc("IndexError")))
+            st.assume(obj.x > 0)
+            last = z3.Select(obj.t, obj.x - 1)
+            self._wb(obj, SV("list", obj.t, x=obj.x - 1, cls=obj.cls), st)
+            return eng.schema.refine(SV("val", last, cls=obj.cls))
         raise Unsupported("list.%s" % name)
 
     def tree_method(self, eng, obj, name, args, st):
